@@ -195,6 +195,15 @@ ProdFix(R, S) ==
   LET S2 == S \cup {R[i].l : i \in {j \in 1..Len(R) : \A k \in 1..Len(R[j].r) : IsT(R[j].r[k]) \/ R[j].r[k] \in S}}
   IN IF S2 = S THEN S ELSE ProdFix(R, S2)
 
+\* nonterminals reachable from the root
+RECURSIVE ReachFix(_, _)
+ReachFix(R, S) ==
+  LET S2 == S \cup UNION {{R[i].r[k] : k \in {q \in 1..Len(R[i].r) : ~IsT(R[i].r[q])}} : i \in {j \in 1..Len(R) : R[j].l \in S}}
+  IN IF S2 = S THEN S ELSE ReachFix(R, S2)
+\* every reachable nonterminal derives some terminal string (the standing assumption of LR theory for the
+\* valid-prefix property: without it the automaton legitimately reads on inside a sentence that cannot be completed)
+ReducedReachable(G) == LET R == XRules(G) IN ReachFix(R, {G.nnt}) \subseteq ProdFix(R, {})
+
 \* prefixes (length <= L) of sentences of arbitrary length
 Prefixes(S) == UNION {{SubSeq(w, 1, n) : n \in 0..Len(w)} : w \in S}
 RECURSIVE PrefSeq(_, _, _, _, _, _)
